@@ -17,7 +17,20 @@ META = dict(
          "the real obitag.FindClosests / obitag2.FindClosests / obirefidx.IndexSequence / obitag.Identify (lazily indexed AND pre-indexed database) "
          "/ Common4Mer on random and adversarial databases x queries x random taxonomies (vm_compute on the same inputs, IUPAC cases included) and "
          "checks the real functions against a brute force over ALL references with the real kernels; the returned idx are checked to pair with the "
-         "returned bests.",
+         "returned bests. Round 3: the BUILT COMMANDS are run on files and compared with the judged in-process runs: obirefidx (index of every reference, "
+         "references of unknown taxid discarded wherever they sit, stale obitag_ref_index annotations overwritten, several worker chunks), obitag on the raw "
+         "database (index built lazily, shared by the workers, --save-db) and on the database written by obirefidx, several queries per run (already "
+         "annotated by a previous run, upper case, stdin, --max-cpu), obireffamidx (family_taxid, reffamidx_in = IndexSequence over the family, "
+         "obitag_ref_index = IndexSequence over the cluster heads) and obitag2 (exact-match rule; cluster pass then family pass recomputed from brute-force "
+         "distances); obitag.CLIAssignTaxonomy in process with the unknown reference first / middle / last / absent. The two database loaders are modelled "
+         "as the in-place compaction loops they are and proved to keep exactly the references of known taxid, in order, each with its own 4-mer table and "
+         "taxon and no nil taxon (C15_loader_obitag_compacts, C15_loader_obirefidx_compacts; the unrepaired obitag loop leaves a nil taxon when the last "
+         "reference is unknown: C15_loader_obitag_orig_refuted, panic exhibited and repaired). MatchDistanceIndex (obitag, obitag2) is executed on every real "
+         "index, tied to its model by the correspondence and proved sound for the property (its answer is an ancestor of every reference within the observed "
+         "distance, and of the answer of Identify's own lookup: C15_match_distance_index_sound / _coarser). The model loaders are evaluated on the layout of "
+         "every database given to the commands and must keep exactly the references the obirefidx command keeps (loader_mismatches); the exact-match rule "
+         "of obitag2 is modelled (exact_taxon: LCA of the taxa of all byte-identical references, C15_obitag2_exact_match_is_lca) and compared with the "
+         "command on every exact query (exact_mismatches); the worker chunks of the indexers cover every reference once (C15_index_chunks_cover).",
     note="Trusted / assumed: the LCS kernels (Section variable: the reported alilen-lcs of two acgt sequences is witnessed by that many "
          "single-symbol edits — C15_alignment_is_edit_script shows any alignment gives one; the bounded kernel / D1Or0 answer d exactly "
          "when d <= bound — cross-checked by the harness on every pair, inconsistent cases are set aside and counted) = property C09; "
@@ -36,8 +49,30 @@ META = dict(
          "finding: obitag2.FindClosests stops after 1001 candidates (C15_search2_cap_refuted; sharp: "
          "C15_search2_lossless_iff_no_closest_beyond_rank_1000); obitag2 is reachable from the built command cmd/obitools/obitag2 (not documented, "
          "not in the release notes); 'the search used by obitag' = obitag.FindClosests (no cap). obitag2's second pass (family databases, "
-         "BestConsensus with the reffamidx_in slot) is not modelled.")
+         "BestConsensus with the reffamidx_in slot) is not modelled in Coq; round 3 executes it through the commands obireffamidx / obitag2 and judges it "
+         "with the Python oracle (two passes recomputed from brute-force distances; how often the two-pass answer differs from the exhaustive one is "
+         "counted under coverage.family_databases, an observation: obitag2 is a heuristic stacked on the search). obitag_match_count of obitag2 keeps the "
+         "number of ties of the cluster pass (not updated after the family pass): not a clause of the property. "
+         "Not exercised (anchored code outside the property, coverage report): obikmer.Index4mer / FastShiftFourMer (positions of 4-mers: used by the "
+         "paired-end aligner only, property C08); obialign.FastLCSEGFScore, _samenuc and the end-gap-free / buffer-growth branches of FastLCSEGFScoreByte "
+         "(kernels = property C09; obitag calls FastLCSScore only); obitax Taxonomy.LCA(sequence, threshold) / TaxonomicDistribution / AddLCAWorker "
+         "(weighted LCA of obiannotate: properties C14 / C16) and the nil / error branches of TaxNode.LCA (the nil branch was the panic of the repaired "
+         "loader); the geometric mode of obitag (--geometric: landmark coordinates, Euclidean distances, not the LCS search of the property) — its only "
+         "anchored piece, MatchDistanceIndex, is executed on the LCS indices and judged; Identify's 'horrible hack' branch and its two Panicln (dead "
+         "code on indices built by IndexSequence: C15_index_has_distance_0, C15_identify_lookup_total; a corrupt obitag_ref_index attribute is outside the "
+         "quantifier). obikmer.Sum4Mer / LCS4MerBounds / Error4MerBounds have NO caller in the repository; they are executed and compared with the real "
+         "kernel on every pair: their intervals are frequently wrong (coverage.observations.unused_4mer_bounds) — dead code, observation only. "
+         "MatchDistanceIndex splits an entry as taxid@rank@name (its documentation) while both indexers write taxid@name@rank: rank and name come back "
+         "exchanged, both callers ignore them: observation. Identify walks downwards (largest recorded distance <= observed) while MatchDistanceIndex takes "
+         "the smallest recorded distance >= observed: proved to be an ancestor of Identify's answer, strictly less specific on "
+         "C15_match_distance_index_strictly_coarser_witness. With u (RNA) or IUPAC codes D1Or0 (bytes) and FastLCSScore (IUPAC-compatible, u = t) "
+         "disagree: outside acgt_only, such cases are generated (alphabet of gen_iupac_case includes u) and counted under outside_guard / kernel_inconsistent. "
+         "obitag2 / obireffamidx do not discard references of unknown taxid (nil taxon): databases given to them hold known taxids only. "
+         "--save-db after a discarded reference writes the compacted array with its last element duplicated (the slice of the caller still has the old "
+         "length): the indices it carries are checked, the duplicate is outside the property.")
 TRUSTED = [
+    "round 3, command-level stage: the FASTA/JSON-header writer and reader of the tests (tools/props/c15.py write_fasta / parse_fasta), the synthetic NCBI dump (nodes.dmp / names.dmp written by write_taxdump) and the in-process run used as reference (itself judged by the direct oracle and the correspondence)",
+    "Go slices and maps in the loader model: `for i, seq := range references` reads element i of the shared backing array at iteration i; a map[int]*TaxNode is an association list with at most one binding per key (Model.mset / mget)",
     "LCS kernels FastLCSScore / D1Or0 (property C09) are a Section variable: hypothesis kernel_edits (distance alilen-lcs of two acgt sequences = that many single-symbol edits) and Model.kern (bounded kernel / D1Or0 answer d iff d <= bound; obitag2 uses byte equality for bound 0); the harness cross-checks bounded vs unbounded kernel and D1Or0 on every pair and sets inconsistent cases aside",
     "TaxNode.Path / LCA (property C14) are Section variables anc / lca with reflexivity, transitivity and anc x (lca a b) <-> anc x a /\\ anc x b; the correspondence uses an executable path/LCA over the parent table (Model.lca_exec) and the Python oracle its own LCA",
     "the candidate order (sort.Sort is not stable) is read back from the code (obiutils.IntOrder + Reverse on the observed counts) and validated by the model as a permutation sorted by decreasing shared 4-mers",
@@ -223,7 +258,7 @@ def gen_case(rng, index=True, big=False):
 def gen_iupac_case(rng):
     """outside the guard acgt_only: ambiguity codes in query and references"""
     c = gen_case(rng, index=False)
-    amb = "nrykmswbdhv"
+    amb = "nrykmswbdhvu"      # u (RNA): same 4-mer code as t, the LCS kernel matches u with t, D1Or0 compares bytes
 
     def amb_some(s):
         s = list(s)
@@ -234,6 +269,18 @@ def gen_iupac_case(rng):
     c["refs"] = [amb_some(r) if rng.random() < 0.5 else r for r in c["refs"]]
     c["tag"] = "iupac"
     return c
+
+
+def gen_long_case(rng):
+    """barcode-sized sequences (80..220 bases), a handful of references: variants of the query at 0..12 differences, one unrelated"""
+    L = rng.randrange(80, 221)
+    q = rseq(rng, L)
+    refs = [mutate(rng, q, rng.choice([0, 1, 2, 3, 5, 8, 12])) for _ in range(rng.randrange(2, 5))] + [rseq(rng, L + rng.randrange(-10, 11))]
+    if rng.random() < 0.5:
+        refs.append(mutate(rng, refs[0], rng.randrange(0, 3)))
+    rng.shuffle(refs)
+    nt = rng.randrange(2, 8)
+    return dict(q=q, refs=refs, taxids=[rng.randrange(1, nt + 1) for _ in refs], taxo=rtaxo(rng, nt), index=True, tag="long")
 
 
 def gen_lowcomplexity_case(rng):
@@ -317,6 +364,61 @@ CORPUS = [
 ]
 
 
+def gen_indel_tie_case(rng):
+    """ties at a best distance k >= 2 made of indels of ONE kind only (|len(ref) - len(query)| = k) next to substitution-only ties; also
+    RNA (u for t) and very short queries (0 / 1 symbol is not a legal sequence for the kernels: from 2)"""
+    L = rng.randrange(9, 40)
+    q = rseq(rng, L)
+    k = rng.choice([2, 2, 3, 4])
+    refs = []
+
+    def ins(s, n, where):
+        for _ in range(n):
+            p = 0 if where == "head" else len(s) if where == "tail" else rng.randrange(len(s) + 1)
+            s = s[:p] + rng.choice(ACGT) + s[p:]
+        return s
+
+    def dele(s, n, where):
+        for _ in range(n):
+            if len(s) <= 4:
+                break
+            p = 0 if where == "head" else len(s) - 1 if where == "tail" else rng.randrange(len(s))
+            s = s[:p] + s[p + 1:]
+        return s
+
+    def subs(s, n):
+        s = list(s)
+        for p in rng.sample(range(len(s)), min(n, len(s))):
+            s[p] = rng.choice([c for c in ACGT if c != s[p]])
+        return "".join(s)
+    for _ in range(rng.randrange(2, 7)):
+        kind = rng.choice(["ins", "ins", "del", "del", "sub", "mix", "far"])
+        where = rng.choice(["head", "tail", "any"])
+        refs.append(ins(q, k, where) if kind == "ins" else dele(q, k, where) if kind == "del" else subs(q, k) if kind == "sub"
+                    else mutate(rng, q, k) if kind == "mix" else mutate(rng, q, k + rng.randrange(1, 4)))
+    rng.shuffle(refs)
+    nt = rng.randrange(2, 8)
+    return dict(q=q, refs=refs, taxids=[rng.randrange(1, nt + 1) for _ in refs], taxo=rtaxo(rng, nt), index=True, tag="indelties")
+
+
+# round 3: input classes the generator could not produce
+CORPUS3 = [
+    # ties at distance 2: two insertions at the tail, two deletions at the head, two substitutions (lead: a length fast path with >= loses them)
+    dict(q="acgtagctaggatcc", refs=["acgtagctaggatccgt", "gtagctaggatcc", "acgaagctagcatcc", "acgtagctaggatcctta"], taxids=[2, 3, 4, 2],
+         taxo=[[1, 1], [2, 1], [3, 1], [4, 3]], index=True, tag="corpus:indel-only-ties"),
+    dict(q="ttgacctgaagtcagga", refs=["ttgacctgaagtcaggaaaa", "gacctgaagtcagga", "ttgacctgaagtcag", "tatgacctgaagtcagga"], taxids=[2, 3, 4, 2],
+         taxo=[[1, 1], [2, 1], [3, 1], [4, 3]], index=True, tag="corpus:indel-only-ties"),
+    # queries of 2 symbols, references of 1 symbol, everything below the 4-mer size
+    dict(q="ac", refs=["a", "c", "ac", "ca"], taxids=[2, 3, 2, 3], taxo=[[1, 1], [2, 1], [3, 1]], index=True, tag="corpus:boundary"),
+    # RNA query (u), two identical DNA references of different taxa + one at distance 1: labelled observation rna_u (outside acgt_only)
+    dict(q="acguagcuaggaucc", refs=["acgtagctaggatcc", "acgtagctaggatcc", "acgtagctaggaacc"], taxids=[2, 3, 3], taxo=[[1, 1], [2, 1], [3, 1]],
+         index=False, tag="corpus:rna-u"),
+    # empty query; empty reference (its index is empty: no distance < |reference| = 0; it can never be a best match of identity >= 0.5)
+    dict(q="", refs=["acgt", "a"], taxids=[1, 2], taxo=[[1, 1], [2, 1]], index=True, tag="corpus:boundary-empty"),
+    dict(q="a", refs=["acgt", "a", ""], taxids=[1, 2, 2], taxo=[[1, 1], [2, 1]], index=True, tag="corpus:boundary-empty"),
+]
+
+
 def acgt_only(c):
     return all(set(s) <= set(ACGT) for s in [c["q"]] + c["refs"])
 
@@ -377,6 +479,8 @@ def oracle(c, o):
         if o["cw"][i] < max(len(c["q"]), len(c["refs"][i])) - 3 - 4 * d[i]:
             bad.append(("qgram", dict(what="a reference at distance d shares fewer than max(len)-3-4d 4-mers with the query (Common4Mer / kernel)",
                                       ref=i, shared=o["cw"][i], distance=d[i])))
+    if "sum4" in o and o["sum4"] != max(0, len(c["q"]) - 3) and len(c["q"]) < 65539:
+        bad.append(("qgram", dict(what="Sum4Mer(Count4Mer(query)) is not the number of 4-mers of the query", got=o["sum4"], expected=max(0, len(c["q"]) - 3))))
     if c.get("index"):
         parent = {t: p for t, p in c["taxo"]}
         tx = c["taxids"]
@@ -386,6 +490,11 @@ def oracle(c, o):
                 continue
             idx = {int(k): v for k, v in o["index"][i].items()}
             rd = o["rd"][i]
+            if len(c["refs"][i]) == 0:
+                # an empty reference: no distance below its length (0) exists, its index is empty
+                if idx:
+                    bad.append(("index", dict(what="IndexSequence records a distance for an empty reference", ref=i, index=idx)))
+                continue
             exp = {}
             for k in sorted(idx):
                 exp[k] = lca_all(parent, [tx[j] for j in range(n) if rd[j] <= k])
@@ -408,6 +517,22 @@ def oracle(c, o):
                 bad.append(("index", dict(what="IndexSequence: a recorded distance is not mapped to the LCA of the taxa of all references within it",
                                           ref=i, index=idx, expected_at_recorded=exp, ref_distances=rd, taxids=tx,
                                           lookup_got_want={e: v for e, v in look.items() if v[0] != v[1]})))
+            # MatchDistanceIndex (obitag and obitag2; called by the geometric mode only) on the same index: smallest recorded distance
+            # >= e, the root beyond the largest one. Judged against the property: its answer must be an ancestor-or-self of the LCA
+            # of the taxa of all references within e (sound, possibly less specific than Identify's own lookup)
+            for key in ("mdi", "mdi2"):
+                got = (o.get(key) or [None] * n)[i]
+                if got is None:
+                    continue
+                for e, t in enumerate(got):
+                    ks = [k for k in idx if k >= e]
+                    want_mdi = idx[min(ks)] if ks else 1
+                    within = lca_all(parent, [tx[j] for j in range(n) if rd[j] <= e])
+                    if t != want_mdi or t not in parent or not is_anc(parent, t, within):
+                        bad.append(("mdi", dict(what=("obitag" if key == "mdi" else "obitag2") + ".MatchDistanceIndex: not the entry of the smallest recorded distance >= "
+                                                "the observed one (root beyond the largest), or not an ancestor-or-self of the LCA of all references within it",
+                                                ref=i, distance=e, got=t, expected=want_mdi, lca_of_references_within=within, index=idx)))
+                        break
         if o["idkind"] != "ok":
             bad.append(("identify", dict(what="Identify " + ("does not return (lookup loop)" if o["idkind"] == "timeout" else "panics"), err=o.get("iderr"))))
         else:
@@ -474,12 +599,14 @@ def case_term(c, o):
         taxid = o["taxid"]
     else:
         oi, taxid = "[]", 0
-    return "mkc %s [%s] %s %s %s %s %s [%s] [%s] %s %s %s %s %d" % (
+    mdi = "[" + ";".join(nl(x) for x in (o.get("mdi") or [])) + "]" if idx else "[]"
+    mdi2 = "[" + ";".join(nl(x) for x in (o.get("mdi2") or [])) + "]" if idx else "[]"
+    return "mkc %s [%s] %s %s %s %s %s [%s] [%s] %s %s %s %s %d %s %s" % (
         bl(c["q"]), ";".join(bl(r) for r in c["refs"]), nl(c["taxids"]), pl(c["taxo"]),
         nl(o["order"]), pl(o["qd"]),
         "true" if c.get("index") else "false",
         ";".join(nl(r) for r in (o.get("rorder") or [])), ";".join(nl(r) for r in (o.get("rd") or [])),
-        nl(o["cw"]), fobs_term(o["fc"]), fobs_term(o["fc2"]), oi, max(taxid, 0))
+        nl(o["cw"]), fobs_term(o["fc"]), fobs_term(o["fc2"]), oi, max(taxid, 0), mdi, mdi2)
 
 
 # --------------------------------------------------------------------------- evaluation
@@ -490,7 +617,7 @@ def strip(c):
     return {k: c[k] for k in ("q", "refs", "taxids", "taxo", "index")}
 
 
-def evaluate(ctx, cases, broken, label, report=True, corr=True):
+def evaluate(ctx, cases, broken, label, report=True, corr=True, shard=None):
     obs = ctx.vh_robust("c15", [strip(c) for c in cases], timeout=240 if ctx.quick else 1200, one_timeout=20)
     stats = dict(kernel_inconsistent=0, outside_guard=0, outside_guard_differs=0, oracle_failures=0)
     usable = []
@@ -507,8 +634,14 @@ def evaluate(ctx, cases, broken, label, report=True, corr=True):
             # guard is checked: C15_search_prefix_exact (every reported best is at the reported distance, which is never below the true
             # minimum) and C15_iupac_bound (shared 4-mers >= max(len) - 3 - 4 (d + amb), amb <= number of non-acgt symbols of the pair)
             stats["outside_guard"] += 1
+            has_u = "u" in c["q"] or any("u" in r for r in c["refs"])
+            if has_u:
+                stats["rna_u_cases"] = stats.get("rna_u_cases", 0) + 1
             if any(k[0] in ("fc", "fc2") for k in oracle(c, o)):
                 stats["outside_guard_differs"] += 1
+                if has_u and set("".join([c["q"]] + c["refs"])) <= set(ACGT + "u"):
+                    stats["rna_u_search_differs"] = stats.get("rna_u_search_differs", 0) + 1
+                    stats.setdefault("rna_u_example", dict(case=strip(c), best=o["fc"], distances=[a - l for l, a in o["qd"]], kernels=o.get("kbad")))
                 stats.setdefault("outside_guard_example", dict(case=strip(c), best=o["fc"], distances=[a - l for l, a in o["qd"]], shared_4mers=o["cw"]))
             dd = [a - l for l, a in o["qd"]]
             unsound = []
@@ -549,6 +682,12 @@ def evaluate(ctx, cases, broken, label, report=True, corr=True):
                         stats.setdefault("lookup_beyond_example", dict(q=c["q"], refs=c["refs"], taxids=c["taxids"], taxo=c["taxo"], distance=min(dd), assigned=o.get("taxid"),
                                                                        lca_of_all_references_within_distance=allw))
         fails = oracle(c, o)
+        if o.get("mdistr"):
+            stats["mdi_strings"] = stats.get("mdi_strings", 0) + 1
+            t0 = (o.get("index") or [{}])[0].get("0")
+            if t0 is not None and o["mdistr"] == ["t%d" % t0, "rank%d" % t0]:
+                stats["mdi_strings_swapped"] = stats.get("mdi_strings_swapped", 0) + 1
+        bounds_observation(c, o, stats)
         if c.get("tag") == "corpus:" + KNOWN_CAP and o["fc2"]["kind"] == "ok":
             pb, pm = cap_prefix_answer(o)
             if sorted(o["fc2"]["idxs"]) != pb or o["fc2"]["maxe"] != pm or not fails:
@@ -574,12 +713,63 @@ def evaluate(ctx, cases, broken, label, report=True, corr=True):
         usable = [i for i in usable if i not in set(big)]
         # outside-guard cases go through the correspondence too (the model does not depend on the guard), search part only
         usable = usable + outside
-        bad, err = ctx.correspond(label, IMPORTS, [case_term(cases[i] if i not in set(outside) else dict(cases[i], index=False), obs[i]) for i in usable], shard=40 if ctx.quick else 20)
+        bad, err = ctx.correspond(label, IMPORTS, [case_term(cases[i] if i not in set(outside) else dict(cases[i], index=False), obs[i]) for i in usable], shard=shard or (40 if ctx.quick else 20))
         if bad is None:
             broken.append(dict(kind="correspondence", detail=err))
         else:
             mism = [usable[i] for i in bad]
     return obs, mism, stats
+
+
+def bounds_observation(c, o, stats):
+    """obikmer.LCS4MerBounds / Error4MerBounds have NO caller in the repository (dead code; not part of the search). They are executed and
+    judged against the real kernel all the same; what they get wrong is a labelled observation, never a violation."""
+    b = stats.setdefault("bounds", dict(pairs=0, lcs_below_min=0, lcs_above_max=0, errors_below_min=0, errors_above_max=0,
+                                        note="LCS4MerBounds / Error4MerBounds (no caller anywhere in the repository: dead code, outside the search the property is about) "
+                                             "compared with the real kernel on every (query, reference) pair: how often the true LCS length / number of differences falls "
+                                             "outside the interval they return. Observation only."))
+    for j, bd in enumerate(o.get("bounds") or []):
+        lcs, ali = o["qd"][j]
+        d = ali - lcs
+        b["pairs"] += 1
+        for key, badv in (("lcs_below_min", lcs < bd[0]), ("lcs_above_max", lcs > bd[1]), ("errors_below_min", d < bd[2]), ("errors_above_max", d > bd[3])):
+            if badv:
+                b[key] += 1
+                b.setdefault("example_" + key, dict(q=c["q"], ref=c["refs"][j], lcs=lcs, differences=d, lcs_bounds=bd[:2], error_bounds=bd[2:]))
+
+
+def loader_stage(ctx, cases, obs):
+    """obitag.CLIAssignTaxonomy in process on a sample of the judged cases, with one more reference (a copy of the query, so that it would be
+    THE best match) whose taxid the taxonomy does not know, placed first / in the middle / last / absent: the taxon and the number of ties
+    must be those of Identify on the references of known taxid. A panic in the worker goroutines of the loader kills the process: own batch."""
+    pick = [i for i, (c, o) in enumerate(zip(cases, obs)) if c.get("index") and o.get("kind") == "ok" and o.get("idkind") == "ok" and o.get("kok")
+            and acgt_only(c) and len(c["refs"]) <= 40]
+    step = max(1, len(pick) // (40 if ctx.quick else 600))
+    pick = pick[::step]
+    lobs = ctx.vh_robust("c15", [dict(strip(cases[i]), loader=True) for i in pick], timeout=120 if ctx.quick else 1200, one_timeout=20)
+    st = dict(cases=len(pick), placements=0, failures=0)
+    nviol = 0
+    for i, lo in zip(pick, lobs):
+        c, o = cases[i], obs[i]
+        d = [a - l for l, a in o["qd"]]
+        exp = dict(taxid=o["taxid"], count=d.count(min(d)))
+        bad = {}
+        if lo.get("kind") != "loader":
+            bad["process"] = lo
+        else:
+            for pos, r in sorted(lo["cliat"].items()):
+                st["placements"] += 1
+                if r["kind"] != "ok" or r["taxid"] != exp["taxid"] or r["count"] != exp["count"] or r.get("best") == "unknown_taxid":
+                    bad[pos] = r
+        if bad:
+            st["failures"] += 1
+            nviol += 1
+            if nviol <= 3:
+                ctx.violation("loader_%d" % i, dict(property="C15", kind="direct-oracle", case=dict(strip(c), loader=True),
+                              what="obitag.CLIAssignTaxonomy (database loader of the command) on the references of the case plus one reference of unknown taxid "
+                                   "(first / middle / last / none): it must assign the taxon, with the number of ties, that Identify assigns on the references of known taxid",
+                              expected=exp, got=bad))
+    return st
 
 
 def nontrivial(c, o):
@@ -600,15 +790,39 @@ def run(ctx, broken):
     cases += [gen_iupac_case(rng) for _ in range(n_amb)]
     cases += [gen_lowcomplexity_case(rng) for _ in range(4 if ctx.quick else 80)]
     cases += [gen_beyond_case(rng) for _ in range(40 if ctx.quick else 800)]
+    cases += [dict(c) for c in CORPUS3] + [gen_indel_tie_case(rng) for _ in range(24 if ctx.quick else 500)]
+    cases += [gen_long_case(rng) for _ in range(6 if ctx.quick else 150)]
+    # command-level groups (one database, several queries): their in-process runs are ordinary cases of the main batch
+    groups = [dict(g) for g in CMD_CORPUS] + [gen_cmd_group(rng, big=(k % 4 == 3)) for k in range(10 if ctx.quick else 120)]
+    gstart = []
+    for g in groups:
+        gstart.append(len(cases))
+        cases += group_cases(g)
     tf = table_failures(ctx._c15_tables) if getattr(ctx, "_c15_tables", None) else ["tables not dumped (regen failed)"]
     ctx.cov["regenerated_tables"] = dict(base_code=getattr(ctx, "_c15_tables", {}).get("base_code"), cell_bits=getattr(ctx, "_c15_tables", {}).get("cell_bits"),
                                          failures=tf)
     if tf:
         ctx.violation("tables", dict(property="C15", kind="direct-oracle", what="base-code table of Encode4mer / Table4mer cell width", failures=tf,
                                      tables=getattr(ctx, "_c15_tables", None)))
+    import time
+    tt = [time.time()]
+    stage_s = {}
+
+    def lap(name):
+        tt.append(time.time())
+        stage_s[name] = round(tt[-1] - tt[-2], 1)
     wrap_stats = run_wrap(ctx)
+    lap("wrap")
     obs, mism, stats = evaluate(ctx, cases, broken, "main")
+    lap("main")
     ctx.cov["evaluations"] = len(cases)
+    cmd_stats = cmd_stage(ctx, groups, lambda k: obs[gstart[k]:gstart[k] + len(groups[k]["queries"])], broken=broken)
+    lap("commands")
+    loader_stats = loader_stage(ctx, cases, obs)
+    lap("loader")
+    fam_stats = family_stage(ctx, [gen_family_group(rng) for _ in range(4 if ctx.quick else 60)], broken)
+    lap("family")
+    ctx.cov["stage_seconds"] = stage_s
     ctx.cov["distinct_nontrivial"] = len({json.dumps(strip(c), sort_keys=True) for c, o in zip(cases, obs) if nontrivial(c, o)})
     ctx.cov["rule"] = ("case = (query, reference set, taxonomy, taxid of each reference); non-trivial = >= 2 references and either a tie at "
                        "the best distance or a reference that is not a best match; distinct = distinct case")
@@ -631,9 +845,21 @@ def run(ctx, broken):
                                                  "= LCA of the references within |b|-1 of b (C15_index_lookup_all_distances, checked as an oracle on every case). When another reference lies "
                                                  "within e but not within |b|-1 of b the assigned taxon is more specific than the LCA of all references within e; it is still an ancestor-or-self "
                                                  "of every best match: neither clause of the property is violated (C15_lookup_beyond_length_witness). Reported, not a violation."),
+        rna_u=dict(cases=stats.get("rna_u_cases", 0), search_differs_from_brute_force_on_acgtu_only_cases=stats.get("rna_u_search_differs", 0),
+                   example=stats.get("rna_u_example"),
+                   note="u (RNA) has the 4-mer code of t and the LCS kernel matches u with t, but D1Or0 compares bytes: once the best distance is 0 or 1 the scan "
+                        "switches to D1Or0 and a reference that differs from the query only by t/u is no longer a tie (RNA query, two identical DNA references: one is "
+                        "returned). Outside the guard acgt_only (the kernels disagree with each other: property C09); reported, not a violation."),
         counter_wrap=wrap_stats,
+        match_distance_index_strings=dict(swapped=stats.get("mdi_strings_swapped", 0), cases=stats.get("mdi_strings", 0),
+                                          note="MatchDistanceIndex splits an entry as taxid@rank@scientificName (its documentation) while IndexSequence and the geometric "
+                                               "indexer write taxid@name@rank: rank and name come back exchanged; both callers ignore them (only the taxid is used): outside the property"),
+        unused_4mer_bounds=stats.get("bounds"),
         kernel_inconsistent=dict(cases=stats["kernel_inconsistent"], example=stats.get("kernel_inconsistent_example"),
                                  note="bounded kernel / D1Or0 disagree with the unbounded kernel on some pair (property C09): case set aside"))
+    ctx.cov["command_level"] = cmd_stats
+    ctx.cov["loader_in_process"] = loader_stats
+    ctx.cov["family_databases"] = fam_stats
     ctx.samples = [dict(case=strip(c), best=o.get("fc"), taxid=o.get("taxid")) for c, o in list(zip(cases, obs))[:2] + list(zip(cases, obs))[60:63]]
     ctx.cov["model_vs_impl_mismatches"] = len(mism)
     if mism and not ctx.violations:
@@ -646,6 +872,518 @@ def run(ctx, broken):
                                                    order=obs[i]["order"], cw=obs[i]["cw"]), n_diverging=len(mism)))
     elif mism:
         ctx.cov["note"] = "model and implementation diverge on %d cases (violations reported by the direct oracle)" % len(mism)
+
+
+# --------------------------------------------------------------------------- command-level stage (round 3)
+# The built commands obirefidx / obitag (and obireffamidx / obitag2) are run on files and compared with the in-process run of the same
+# database that the direct oracle judges: option parsing, taxonomy loading, the database loaders (obitag.CLIAssignTaxonomy,
+# obirefidx.IndexReferenceDB: references of unknown taxid discarded by an in-place compaction of parallel arrays), the worker pools,
+# the index attribute written to / read back from a file, the lazily built index shared by the workers of obitag.
+CMDS = ["obitag", "obirefidx", "obireffamidx", "obitag2"]
+UNKNOWN_TAXID = 987654
+
+
+def write_taxdump(d, taxo, ranks=None):
+    os.makedirs(d, exist_ok=True)
+    ranks = ranks or {}
+    with open(os.path.join(d, "nodes.dmp"), "w") as f:
+        for t, p in taxo:
+            f.write("%d\t|\t%d\t|\t%s\t|\t\t|\t0\t|\t1\t|\t1\t|\t1\t|\t0\t|\t1\t|\t1\t|\t0\t|\t\t|\n" % (t, p, ranks.get(t, "rank%d" % t)))
+    with open(os.path.join(d, "names.dmp"), "w") as f:
+        for t, p in taxo:
+            f.write("%d\t|\tt%d\t|\t\t|\tscientific name\t|\n" % (t, t))
+    open(os.path.join(d, "merged.dmp"), "w").write("")
+    open(os.path.join(d, "delnodes.dmp"), "w").write("")
+
+
+def write_fasta(path, recs):
+    with open(path, "w") as f:
+        for rid, ann, seq in recs:
+            f.write(">%s%s\n%s\n" % (rid, (" " + json.dumps(ann, sort_keys=True)) if ann else "", seq))
+
+
+def parse_fasta(text):
+    out = []
+    for blk in text.split(">")[1:]:
+        head, _, body = blk.partition("\n")
+        rid, _, rest = head.partition(" ")
+        ann = {}
+        rest = rest.strip()
+        if rest.startswith("{"):
+            try:
+                ann, _ = json.JSONDecoder().raw_decode(rest)
+            except Exception:
+                ann = {"_unparsed": rest}
+        out.append((rid, ann, "".join(body.split())))
+    return out
+
+
+def idx_taxids(m):
+    """obitag_ref_index attribute as written in a file {"distance": "taxid@name@rank"} -> {distance: taxid}; None when malformed"""
+    try:
+        out = {}
+        for k, v in m.items():
+            parts = v.split("@")
+            t = int(parts[0])
+            if len(parts) != 3 or parts[1] != "t%d" % t:
+                return None
+            out[int(k)] = t
+        return out
+    except Exception:
+        return None
+
+
+def gen_cmd_group(rng, big=False):
+    """one database + several queries for the command-line differential"""
+    c = gen_case(rng, index=True, big=big)
+    while not acgt_only(c) or len(c["refs"]) < 2:
+        c = gen_case(rng, index=True, big=big)
+    if big:
+        c["refs"], c["taxids"] = c["refs"][:26], c["taxids"][:26]       # > 10 and > 20: three chunks of 10 in IndexReferenceDB
+    qs = [c["q"]]
+    for _ in range(rng.randrange(1, 3) if big else rng.randrange(2, 6)):
+        k = rng.random()
+        src = rng.choice(c["refs"] + [c["q"]])
+        qs.append(src if k < 0.25 else mutate(rng, src, rng.randrange(1, 4)))
+    qs = [x if len(x) >= 1 else "a" for x in qs]
+    n = len(c["refs"])
+    return dict(kind="cmdgroup", refs=c["refs"], taxids=c["taxids"], taxo=c["taxo"], queries=qs,
+                # where the reference of unknown taxid (a copy of the first query) sits in the database file: None = absent
+                unknown_at=rng.choice([None, 0, n // 2, n, n, rng.randrange(n + 1)]),
+                two_unknown=rng.random() < 0.3,
+                stale=rng.random() < 0.5,            # references given to obirefidx already carry an (unrelated) obitag_ref_index
+                annotated_queries=rng.random() < 0.5,  # queries already carry taxid / obitag_* annotations of a previous run
+                upper=rng.random() < 0.3,            # sequences in upper case in the files
+                maxcpu=rng.choice([None, 1, 2, 4]), stdin=rng.random() < 0.3)
+
+
+CMD_CORPUS = [
+    # unmodified CLIAssignTaxonomy: the LAST reference has a taxid the taxonomy does not know -> a nil entry stayed in the taxon set and
+    # IndexSequence panicked (LCA of a nil taxon); repaired
+    dict(kind="cmdgroup", refs=["tccta", "cgtcc", "cgtcc", "cgtacctccta", "cgtcctataaa", "cgtcct"], taxids=[1, 4, 2, 4, 2, 1],
+         taxo=[[1, 1], [2, 1], [3, 1], [4, 3]], queries=["cgtccta", "cgtcc", "tcctaa"], unknown_at=6, two_unknown=False, stale=True,
+         annotated_queries=True, upper=False, maxcpu=None, stdin=False),
+    dict(kind="cmdgroup", refs=["acgtacgtac", "acgtacgtac", "acgtacgtaa"], taxids=[3, 4, 2], taxo=[[1, 1], [2, 1], [3, 2], [4, 2]],
+         queries=["acgtacgtac", "acgtacgtta", "ttttttttttttttttttttt"], unknown_at=0, two_unknown=True, stale=False, annotated_queries=False,
+         upper=True, maxcpu=1, stdin=True),
+]
+
+
+def group_cases(g):
+    return [dict(q=q, refs=g["refs"], taxids=g["taxids"], taxo=g["taxo"], index=True, tag="cmdgroup") for q in g["queries"]]
+
+
+def run_cmd_group(ctx, bindir, g, gobs, workdir):
+    """Run obirefidx and obitag (database indexed lazily / read back indexed) on the group and compare with the in-process
+    observations gobs (one per query; judged by the direct oracle). Returns a list of failure dicts."""
+    import shutil
+    from vlib import sh
+    fails = []
+    shutil.rmtree(workdir, ignore_errors=True)
+    os.makedirs(workdir)
+    tax = os.path.join(workdir, "tax")
+    write_taxdump(tax, g["taxo"])
+    up = (lambda x: x.upper()) if g.get("upper") else (lambda x: x)
+    n = len(g["refs"])
+    recs = [("r%d" % i, {"taxid": g["taxids"][i]}, up(g["refs"][i])) for i in range(n)]
+    if g.get("unknown_at") is not None:
+        recs.insert(g["unknown_at"], ("unknown_taxid", {"taxid": UNKNOWN_TAXID}, up(g["queries"][0])))
+        if g.get("two_unknown"):
+            recs.insert(min(len(recs), g["unknown_at"] + 2), ("unknown_taxid_2", {"taxid": UNKNOWN_TAXID + 1}, up(g["queries"][-1])))
+    write_fasta(os.path.join(workdir, "db.fasta"), recs)
+    stale = [(rid, dict(ann, obitag_ref_index={"0": "1@t1@rank1", "1": "1@t1@rank1"}) if g.get("stale") and k % 2 == 0 else ann, s)
+             for k, (rid, ann, s) in enumerate(recs)]
+    write_fasta(os.path.join(workdir, "db_in.fasta"), stale)
+    qrecs = []
+    for k, q in enumerate(g["queries"]):
+        ann = None
+        if g.get("annotated_queries") and k % 2 == 0:
+            ann = {"taxid": g["taxids"][0], "obitag_bestid": 0.25, "obitag_match_count": 99, "obitag_bestmatch": "zzz", "scientific_name": "old"}
+        qrecs.append(("q%d" % k, ann, up(q)))
+    write_fasta(os.path.join(workdir, "q.fasta"), qrecs)
+    opt = "-t tax" + (" --max-cpu %d" % g["maxcpu"] if g.get("maxcpu") else "")
+
+    def run(cmd, stdin_file=None):
+        line = "cd %s && %s" % (workdir, cmd) + (" < %s" % stdin_file if stdin_file else "")
+        rc, out, err, dt = sh(line + " 2> stderr.txt", timeout=120)
+        return rc, out
+
+    # 1. obirefidx: the index of every reference of known taxid, references of unknown taxid discarded
+    rc, out = run("%s/obirefidx %s db_in.fasta" % (bindir, opt))
+    idb = parse_fasta(out) if rc == 0 else []
+    want_index = gobs[0].get("index") or []
+    if rc != 0:
+        fails.append(dict(where="obirefidx", what="the command fails (exit status %d)" % rc, stderr=open(os.path.join(workdir, "stderr.txt")).read()[-600:]))
+    else:
+        if sorted(r[0] for r in idb) != sorted("r%d" % i for i in range(n)):
+            fails.append(dict(where="obirefidx", what="the indexed database does not hold exactly the references of known taxid", got=[r[0] for r in idb]))
+        for rid, ann, s in idb:
+            if not rid.startswith("r") or not rid[1:].isdigit() or int(rid[1:]) >= n:
+                continue
+            i = int(rid[1:])
+            got = idx_taxids(ann.get("obitag_ref_index") or {})
+            exp = {int(k): v for k, v in want_index[i].items()} if i < len(want_index) and want_index[i] is not None else None
+            if s != g["refs"][i] or ann.get("taxid") != g["taxids"][i]:
+                fails.append(dict(where="obirefidx", what="reference written with another sequence / taxid", ref=i, got=[s, ann.get("taxid")]))
+            elif got is None or got != exp:
+                fails.append(dict(where="obirefidx", what="index written by the command differs from obirefidx.IndexSequence on the references of known taxid "
+                                  "(judged by the direct oracle: every recorded distance -> LCA of the taxa of all references within it)",
+                                  ref=i, written=ann.get("obitag_ref_index"), expected=exp))
+        open(os.path.join(workdir, "idb.fasta"), "w").write(out)
+    # 2. obitag on the raw database (index built lazily, shared by the workers) and on the indexed one (index read back from the file)
+    runs = [("obitag (database indexed lazily)", "db.fasta --save-db saved.fasta")]
+    if rc == 0:
+        runs.append(("obitag (database indexed by the obirefidx command)", "idb.fasta"))
+    if g.get("unknown_at") is None:
+        # the database saved by the first run carries the indices of the references that were best matches only: PARTIALLY indexed
+        runs.append(("obitag (partially indexed database written by --save-db)", "saved.fasta"))
+    for name, db in runs:
+        if g.get("stdin"):
+            rc2, out2 = run("%s/obitag %s -R %s" % (bindir, opt, db), stdin_file="q.fasta")
+        else:
+            rc2, out2 = run("%s/obitag %s -R %s q.fasta" % (bindir, opt, db))
+        if rc2 != 0:
+            fails.append(dict(where=name, what="the command fails (exit status %d)" % rc2, stderr=open(os.path.join(workdir, "stderr.txt")).read()[-600:]))
+            continue
+        res = {rid: (ann, s) for rid, ann, s in parse_fasta(out2)}
+        if sorted(res) != sorted("q%d" % k for k in range(len(g["queries"]))):
+            fails.append(dict(where=name, what="the output does not hold exactly the queries", got=sorted(res)))
+            continue
+        for k, q in enumerate(g["queries"]):
+            o = gobs[k]
+            if o.get("kind") != "ok" or o.get("idkind") != "ok" or not o.get("kok"):
+                continue
+            ann, s = res["q%d" % k]
+            d = [a - l for l, a in o["qd"]]
+            best = [j for j in range(n) if d[j] == min(d)]
+            bestid = max(o["qd"][j][0] / o["qd"][j][1] for j in best)
+            got = dict(taxid=ann.get("taxid"), match_count=ann.get("obitag_match_count"), bestid=ann.get("obitag_bestid"))
+            exp = dict(taxid=o["taxid"], match_count=len(best), bestid=bestid)
+            # the reported best match is one of the best references of maximal identity; name and rank are those of the assigned taxon
+            bm_ok = ann.get("obitag_bestmatch") in {"r%d" % j for j in best if abs(o["qd"][j][0] / o["qd"][j][1] - bestid) < 1e-12}
+            names_ok = ann.get("scientific_name") == "t%s" % ann.get("taxid") and ann.get("obitag_rank") == "rank%s" % ann.get("taxid")
+            if s != q or got["taxid"] != exp["taxid"] or got["match_count"] != exp["match_count"] or not isinstance(got["bestid"], (int, float)) \
+                    or abs(got["bestid"] - exp["bestid"]) > 1e-9 or not bm_ok or not names_ok:
+                fails.append(dict(where=name, what="the command does not assign what obitag.Identify assigns in process on the references of known taxid "
+                                  "(taxon, number of ties, best identity; the in-process answer is judged by the direct oracle)",
+                                  query=k, sequence=q, got=got, expected=exp, best=best, distance=min(d), best_match_reported=ann.get("obitag_bestmatch"),
+                                  best_match_is_a_best_reference=bm_ok, name_and_rank_of_assigned_taxon=names_ok))
+        if "--save-db" in db:
+            # the saved database: every index it carries is the index IndexSequence builds for that reference
+            try:
+                saved = parse_fasta(open(os.path.join(workdir, "saved.fasta")).read())
+            except Exception as e:
+                saved = None
+                fails.append(dict(where=name, what="--save-db wrote nothing", err=str(e)))
+            if rc == 0:
+                # observable of the loaders for the Coq model (Model.lcase_ok): the references kept by obirefidx, as positions in the database file
+                pos = {rid: k for k, (rid, _, _) in enumerate(recs)}
+                if all(r[0] in pos for r in idb):
+                    g["_loader_obs"] = dict(known=[a.get("taxid") not in (UNKNOWN_TAXID, UNKNOWN_TAXID + 1) for _, a, _ in recs],
+                                            refidx=[pos[r[0]] for r in idb])
+            for rid, ann, s in saved or []:
+                if "obitag_ref_index" in ann and rid.startswith("r") and rid[1:].isdigit() and int(rid[1:]) < len(want_index):
+                    i = int(rid[1:])
+                    got = idx_taxids(ann["obitag_ref_index"])
+                    exp = {int(k): v for k, v in want_index[i].items()}
+                    if got != exp or s != g["refs"][i]:
+                        fails.append(dict(where=name + " --save-db", what="index saved for a reference differs from obirefidx.IndexSequence", ref=i,
+                                          written=ann["obitag_ref_index"], expected=exp))
+    if not fails:
+        shutil.rmtree(workdir, ignore_errors=True)       # the files of a failing group are kept next to its replay
+    return fails
+
+
+def cmd_stage(ctx, groups, gobs_of, label="cmd", broken=None):
+    """groups: list of cmdgroup dicts; gobs_of(k) -> in-process observations of group k. Reports violations; returns stats."""
+    from vlib import BUILD
+    bindir, err = get_bindir(ctx)
+    if bindir is None:
+        ctx.violation(label + "_build", dict(property="C15", kind="build", what="commands do not build", err=err), no_input=True)
+        return dict(groups=0, error="commands do not build")
+    st = dict(groups=len(groups), queries=sum(len(g["queries"]) for g in groups), command_runs=0, failures=0,
+              unknown_taxid_positions={}, options={})
+    nviol = 0
+    lterms = []
+    for k, g in enumerate(groups):
+        gobs = gobs_of(k)
+        n = len(g["refs"])
+        pos = g.get("unknown_at")
+        pk = "absent" if pos is None else "first" if pos == 0 else "last" if pos >= n else "inside"
+        st["unknown_taxid_positions"][pk] = st["unknown_taxid_positions"].get(pk, 0) + 1
+        for kk in ("stale", "annotated_queries", "upper", "stdin", "two_unknown"):
+            if g.get(kk):
+                st["options"][kk] = st["options"].get(kk, 0) + 1
+        st["options"]["max-cpu=%s" % g.get("maxcpu")] = st["options"].get("max-cpu=%s" % g.get("maxcpu"), 0) + 1
+        if any(o.get("kind") != "ok" for o in gobs):
+            continue
+        fails = run_cmd_group(ctx, bindir, g, gobs, os.path.join(BUILD, "c15_%s_%d_%d" % (label, os.getpid(), k)))
+        st["command_runs"] += 3
+        lo = g.pop("_loader_obs", None)
+        if lo is not None and not fails:
+            lterms.append(("mkl [%s] %s" % (";".join("true" if b else "false" for b in lo["known"]), nl(lo["refidx"])), g))
+        if fails:
+            st["failures"] += 1
+            nviol += 1
+            if nviol <= 3:
+                ctx.violation("%s_group_%d" % (label, k), dict(property="C15", kind="direct-oracle", case=g, failures=fails[:6]))
+    if lterms:
+        # the in-place compaction loops of the two loaders against their Coq model (C15_loader_obitag_compacts / C15_loader_obirefidx_compacts)
+        bad, err = ctx.correspond(label + "_loader", IMPORTS, [t for t, _ in lterms], fn="loader_mismatches")
+        st["loader_model_evaluations"] = len(lterms)
+        if bad is None:
+            (broken if broken is not None else []).append(dict(kind="correspondence", detail=err))
+        elif bad and broken is not None:
+            broken.append(dict(kind="correspondence", name="corr:C15/database-loaders", first_diverging_case=lterms[bad[0]][1], n_diverging=len(bad)))
+    return st
+
+
+# --------------------------------------------------------------------------- obireffamidx + obitag2 (family databases)
+def gen_family_group(rng):
+    """taxonomy with family / genus / species ranks (some species hang directly under the root: no family), references = variants of one
+    seed per family (90 % clusters), queries = variants of references, exact copies, and one far sequence"""
+    taxo, ranks = [[1, 1]], {1: "no rank"}
+    nid = [2]
+
+    def node(parent, rank):
+        t = nid[0]
+        nid[0] += 1
+        taxo.append([t, parent])
+        ranks[t] = rank
+        return t
+    species_of_family = {}
+    order = node(1, "order") if rng.random() < 0.5 else 1
+    for _ in range(rng.randrange(2, 4)):
+        f = node(order, "family")
+        sp = []
+        for _ in range(rng.randrange(1, 3)):
+            g = node(f, "genus")
+            sp += [node(g, "species") for _ in range(rng.randrange(1, 3))]
+        if rng.random() < 0.3:
+            sp.append(node(f, "species"))        # species without genus
+        species_of_family[f] = sp
+    if rng.random() < 0.4:
+        species_of_family[-1] = [node(1, "species")]   # no family
+    refs, taxids = [], []
+    L = rng.randrange(24, 44)
+    common = rseq(rng, L)
+    for f, sp in species_of_family.items():
+        seed = mutate(rng, common, rng.randrange(4, 12)) if rng.random() < 0.6 else rseq(rng, L)
+        for _ in range(rng.randrange(2, 8)):
+            refs.append(mutate(rng, seed, rng.choice([0, 1, 2, 3, 5, 8])))
+            taxids.append(rng.choice(sp))
+    if rng.random() < 0.6:
+        k = rng.randrange(len(refs))
+        refs.append(refs[k])                          # byte-identical references, possibly of another taxon (even of another family)
+        taxids.append(rng.choice([t for sp in species_of_family.values() for t in sp if t != taxids[k]] or [taxids[k]]))
+    z = list(zip(refs, taxids))
+    rng.shuffle(z)
+    refs, taxids = [a for a, _ in z], [b for _, b in z]
+    dups = [r for r in set(refs) if refs.count(r) > 1]
+    qs = [rng.choice(dups or refs)] + [mutate(rng, rng.choice(refs), rng.randrange(1, 5)) for _ in range(rng.randrange(2, 5))] + [rseq(rng, L)]
+    qs.append(rseq(rng, 3 * L))       # identity below 0.5 with every cluster head: obitag2 assigns the root
+    return dict(kind="famgroup", refs=refs, taxids=taxids, taxo=taxo, ranks={str(k): v for k, v in ranks.items()}, queries=qs,
+                maxcpu=rng.choice([None, 1, 3]))
+
+
+def expected_assign(c, o, identity_check=True):
+    """what Identify / BestConsensus must answer on database c for the query, from the brute-force distances of o: LCA over the best matches b of
+    the taxa of the references within min(best distance, |b| - 1) of b (C15_index_lookup_all_distances); also the variant without the cut"""
+    parent = {t: p for t, p in c["taxo"]}
+    n = len(c["refs"])
+    d = [a - l for l, a in o["qd"]]
+    dmin = min(d)
+    best = [j for j in range(n) if d[j] == dmin]
+    ident = max(o["qd"][j][0] / o["qd"][j][1] for j in best)
+    if identity_check and ident < 0.5:
+        return dict(taxids={1}, best=best, distance=dmin, identity=ident, assigned=False)
+    w1 = lca_all(parent, [c["taxids"][j] for b in best for j in range(n) if o["rd"][b][j] <= min(dmin, len(c["refs"][b]) - 1)])
+    w2 = lca_all(parent, [c["taxids"][j] for b in best for j in range(n) if o["rd"][b][j] <= dmin])
+    return dict(taxids={w1, w2}, best=best, distance=dmin, identity=ident, assigned=True)
+
+
+def get_bindir(ctx):
+    if getattr(ctx, "_c15_bindir", None) is None:
+        ctx._c15_bindir, ctx._c15_binerr = ctx.build_cmds(CMDS)
+    return ctx._c15_bindir, ctx._c15_binerr
+
+
+def family_stage(ctx, groups, broken):
+    """obireffamidx then obitag2 on files. Judged: (1) family_taxid of every reference; (2) reffamidx_in of every reference = IndexSequence over
+    the references of its family, obitag_ref_index of every cluster head = IndexSequence over the cluster heads (in-process runs judged by the
+    direct oracle); (3) the taxon obitag2 assigns = exact-match rule, else the two passes (cluster heads, then the proposed family) recomputed
+    from brute-force distances of in-process runs. How often the two-pass answer differs from the exhaustive answer is an observation."""
+    import shutil
+    from vlib import BUILD, sh
+    bindir, err = get_bindir(ctx)
+    st = dict(groups=len(groups), references=0, queries=0, families=0, cluster_heads=0, failures=0, exact_matches=0, two_pass=0, unassigned=0,
+              two_pass_differs_from_exhaustive=0,
+              note="obitag2 (clusters then family) is a heuristic on top of the search: its answer is compared with the same two passes recomputed from "
+                   "brute-force distances; 'two_pass_differs_from_exhaustive' counts queries for which that answer is not the one of the exhaustive search "
+                   "over the whole database (observation: the property's search is obitag.FindClosests)")
+    if bindir is None:
+        return dict(st, error="commands do not build")
+    G = []
+    # ---- phase A: obireffamidx on every group; in-process cases of pass 0 (indices) and pass 1 (queries against the cluster heads)
+    batch1 = []
+    for gi, g in enumerate(groups):
+        wd = os.path.join(BUILD, "c15_fam_%d_%d" % (os.getpid(), gi))
+        shutil.rmtree(wd, ignore_errors=True)
+        os.makedirs(wd)
+        ranks = {int(k): v for k, v in g["ranks"].items()}
+        parent = {t: p for t, p in g["taxo"]}
+        write_taxdump(os.path.join(wd, "tax"), g["taxo"], ranks)
+        n = len(g["refs"])
+        write_fasta(os.path.join(wd, "db.fasta"), [("r%d" % i, {"taxid": g["taxids"][i]}, g["refs"][i]) for i in range(n)])
+        write_fasta(os.path.join(wd, "q.fasta"), [("q%d" % k, None, q) for k, q in enumerate(g["queries"])])
+        opt = "-t tax" + (" --max-cpu %d" % g["maxcpu"] if g.get("maxcpu") else "")
+        st["references"] += n
+        st["queries"] += len(g["queries"])
+
+        def fam_of(t, parent=parent, ranks=ranks):
+            for x in path_of(parent, t):
+                if ranks.get(x) == "family":
+                    return x
+            return -1
+        sub = lambda ids, q, g=g: dict(q=q, refs=[g["refs"][i] for i in ids], taxids=[g["taxids"][i] for i in ids], taxo=g["taxo"], index=True, tag="famgroup")
+        X = dict(g=g, wd=wd, opt=opt, n=n, parent=parent, fam_of=fam_of, sub=sub, fails=[], ok=False)
+        G.append(X)
+        rc, out, err, dt = sh("cd %s && %s/obireffamidx %s db.fasta 2> stderr1.txt" % (wd, bindir, opt), timeout=120)
+        recs = parse_fasta(out) if rc == 0 else []
+        if rc != 0 or sorted(r[0] for r in recs) != sorted("r%d" % i for i in range(n)):
+            X["fails"].append(dict(where="obireffamidx", what="the command fails or does not write every reference", rc=rc, got=[r[0] for r in recs][:50]))
+            continue
+        open(os.path.join(wd, "fdb.fasta"), "w").write(out)
+        ann = {int(rid[1:]): a for rid, a, _ in recs}
+        for i in range(n):
+            if ann[i].get("family_taxid") != fam_of(g["taxids"][i]):
+                X["fails"].append(dict(where="obireffamidx", what="family_taxid of a reference", ref=i, got=ann[i].get("family_taxid"), expected=fam_of(g["taxids"][i])))
+        fams = {}
+        for i in range(n):
+            fams.setdefault(fam_of(g["taxids"][i]), []).append(i)
+        heads = [i for i in range(n) if ann[i].get("reffamidx_clusterhead") is True]
+        st["families"] += len(fams)
+        st["cluster_heads"] += len(heads)
+        for i in range(n):
+            h = ann[i].get("reffamidx_clusterid")
+            if not (isinstance(h, str) and h[1:].isdigit() and int(h[1:]) in heads and fam_of(g["taxids"][int(h[1:])]) == fam_of(g["taxids"][i])):
+                X["fails"].append(dict(where="obireffamidx", what="a reference is attached to a cluster head that is not a head of its family", ref=i, got=h))
+        if not heads:
+            X["fails"].append(dict(where="obireffamidx", what="no cluster head"))
+            continue
+        X.update(ok=True, ann=ann, fams=fams, heads=heads)
+        X["sets"] = [("reffamidx_in", ids) for _, ids in sorted(fams.items())] + [("obitag_ref_index", heads)]
+        X["nonexact"] = [k for k, q in enumerate(g["queries"]) if q not in g["refs"]]
+        X["cases0"] = [sub(ids, g["refs"][ids[0]]) for _, ids in X["sets"]]
+        X["cases1"] = [sub(heads, g["queries"][k]) for k in X["nonexact"]]
+        X["at1"] = len(batch1)
+        batch1 += X["cases0"] + X["cases1"]
+    obs1, mism, _ = evaluate(ctx, batch1, broken, "fam1", shard=8) if batch1 else ([], [], {})
+    if mism:
+        broken.append(dict(kind="correspondence", name="corr:C15/family-database", first_diverging_case=strip(batch1[mism[0]])))
+    # ---- phase B: indices judged; the proposed family of every query; in-process cases of pass 2 and of the exhaustive search
+    batch2, batch3 = [], []
+    for X in G:
+        if not X["ok"]:
+            continue
+        g, ann = X["g"], X["ann"]
+        o0 = obs1[X["at1"]:X["at1"] + len(X["cases0"])]
+        o1 = obs1[X["at1"] + len(X["cases0"]):X["at1"] + len(X["cases0"]) + len(X["cases1"])]
+        for (slot, ids), o in zip(X["sets"], o0):
+            if o.get("kind") != "ok" or not all(k == "ok" for k in o.get("idxkind", ["?"])):
+                continue
+            for pos, i in enumerate(ids):
+                got = idx_taxids(ann[i].get(slot) or {})
+                exp = {int(k): v for k, v in o["index"][pos].items()}
+                if got != exp:
+                    X["fails"].append(dict(where="obireffamidx", what="%s of a reference differs from obirefidx.IndexSequence over %s (judged by the direct oracle)"
+                                           % (slot, "the references of its family" if slot == "reffamidx_in" else "the cluster heads"),
+                                           ref=i, written=ann[i].get(slot), expected=exp, members=ids))
+        X["plan"] = {}
+        for pos, (k, o) in enumerate(zip(X["nonexact"], o1)):
+            if o.get("kind") != "ok" or not o.get("kok"):
+                continue
+            e1 = expected_assign(X["cases1"][pos], o)
+            X["plan"][k] = dict(pass1=e1)
+            if e1["assigned"]:
+                fset = {X["fam_of"](t) for t in e1["taxids"]}
+                if len(fset) == 1 and -1 not in fset:
+                    X["plan"][k]["family"] = fset.pop()
+                    X["plan"][k]["case2"] = len(batch2)
+                    batch2.append(X["sub"](X["fams"][X["plan"][k]["family"]], g["queries"][k]))
+                elif len(fset) > 1:
+                    X["plan"][k]["ambiguous"] = True
+        X["at3"] = len(batch3)
+        batch3 += [X["sub"](list(range(X["n"])), g["queries"][k]) for k in X["nonexact"]]
+    obs2, mism2, _ = evaluate(ctx, batch2, broken, "fam2", shard=8) if batch2 else ([], [], {})
+    if mism2:
+        broken.append(dict(kind="correspondence", name="corr:C15/family-database", first_diverging_case=strip(batch2[mism2[0]])))
+    obs3, _, _ = evaluate(ctx, batch3, broken, "fam3", corr=False) if batch3 else ([], [], {})
+    # ---- phase C: obitag2 on every group
+    nviol = 0
+    xterms = []
+    for gi, X in enumerate(G):
+        g, fails = X["g"], X["fails"]
+        if X["ok"]:
+            n, parent = X["n"], X["parent"]
+            rc2, out2, err2, dt2 = sh("cd %s && %s/obitag2 %s -R fdb.fasta q.fasta 2> stderr2.txt" % (X["wd"], bindir, X["opt"]), timeout=120)
+            res = {rid: a for rid, a, _ in parse_fasta(out2)} if rc2 == 0 else {}
+            if rc2 != 0 or sorted(res) != sorted("q%d" % k for k in range(len(g["queries"]))):
+                fails.append(dict(where="obitag2", what="the command fails or does not write every query", rc=rc2,
+                                  stderr=open(os.path.join(X["wd"], "stderr2.txt")).read()[-500:]))
+            else:
+                allobs = dict(zip(X["nonexact"], obs3[X["at3"]:X["at3"] + len(X["nonexact"])]))
+                allcases = dict(zip(X["nonexact"], batch3[X["at3"]:X["at3"] + len(X["nonexact"])]))
+                for k, q in enumerate(g["queries"]):
+                    a = res["q%d" % k]
+                    plan = X["plan"]
+                    if q in g["refs"]:
+                        same = [i for i in range(n) if g["refs"][i] == q]
+                        exp = dict(taxid={lca_all(parent, [g["taxids"][i] for i in same])}, match_count=len(same), method="exact match")
+                        st["exact_matches"] += 1
+                        if isinstance(a.get("taxid"), int) and a.get("taxid") >= 0 and a.get("obitag_similarity_method") == "exact match":
+                            xterms.append(("mkx %s [%s] %s %s %d" % (bl(q), ";".join(bl(r) for r in g["refs"]), nl(g["taxids"]), pl(g["taxo"]), a["taxid"]),
+                                           dict(kind="famgroup-exact", group=g, query=k, assigned=a["taxid"])))
+                    elif k in plan and not plan[k].get("ambiguous"):
+                        pk = plan[k]
+                        if "case2" in pk:
+                            o2 = obs2[pk["case2"]]
+                            if o2.get("kind") != "ok" or not o2.get("kok"):
+                                continue
+                            e2 = expected_assign(batch2[pk["case2"]], o2, identity_check=False)
+                            # (obitag_match_count keeps the number of ties of the FIRST pass: `weight = bests.Len()` is not updated after the family pass)
+                            exp = dict(taxid=e2["taxids"], match_count=len(pk["pass1"]["best"]), method="lcsfamlily")
+                            st["two_pass"] += 1
+                        else:
+                            exp = dict(taxid=pk["pass1"]["taxids"], match_count=len(pk["pass1"]["best"]), method="lcsfamlily")
+                            st["unassigned" if not pk["pass1"]["assigned"] else "two_pass"] += 1
+                    else:
+                        continue
+                    ko = allobs.get(k)
+                    if ko is not None and ko.get("kind") == "ok" and ko.get("kok") and a.get("taxid") not in expected_assign(allcases[k], ko)["taxids"]:
+                        st["two_pass_differs_from_exhaustive"] += 1
+                        st.setdefault("two_pass_differs_example", dict(group=g, query=k, obitag2=a.get("taxid"), exhaustive=sorted(expected_assign(allcases[k], ko)["taxids"])))
+                    if a.get("taxid") not in exp["taxid"] or a.get("obitag_match_count") != exp["match_count"] or a.get("obitag_similarity_method") != exp["method"]:
+                        fails.append(dict(where="obitag2", what="assigned taxon / number of ties differ from the exact-match rule or from the two passes (cluster heads, proposed "
+                                          "family) recomputed from brute-force distances", query=k, sequence=q,
+                                          got=dict(taxid=a.get("taxid"), match_count=a.get("obitag_match_count"), method=a.get("obitag_similarity_method")),
+                                          expected=dict(exp, taxid=sorted(exp["taxid"])), plan={kk: vv for kk, vv in plan.get(k, {}).items() if kk != "pass1"}))
+        if not fails:
+            shutil.rmtree(X["wd"], ignore_errors=True)
+        if fails:
+            st["failures"] += 1
+            nviol += 1
+            if nviol <= 2:
+                ctx.violation("family_group_%d" % gi, dict(property="C15", kind="direct-oracle", case=g, failures=fails[:6]))
+    if xterms:
+        # the exact-match rule of obitag2 against its Coq model (Model.exact_taxon; C15_obitag2_exact_match_is_lca)
+        bad, err = ctx.correspond("famx", IMPORTS, [t for t, _ in xterms], fn="exact_mismatches")
+        if bad is None:
+            broken.append(dict(kind="correspondence", detail=err))
+        elif bad and not st["failures"]:
+            broken.append(dict(kind="correspondence", name="corr:C15/obitag2-exact-match", first_diverging_case=xterms[bad[0]][1], n_diverging=len(bad)))
+        st["exact_match_model_evaluations"] = len(xterms)
+    return st
 
 
 KNOWN_WRAP = "search-4mer-count-wrap"
@@ -725,6 +1463,24 @@ def replay(ctx, rp):
         return
     if not c:
         print("replay: no case in the replay file (proof obligation / build failure):", json.dumps(rp)[:2000])
+        return
+    if c.get("kind") in ("cmdgroup", "famgroup") or c.get("loader"):
+        regen(ctx)
+        before = len(ctx.violations)
+        if c.get("kind") == "cmdgroup":
+            obs, _, _ = evaluate(ctx, group_cases(c), [], "replay", report=False, corr=False)
+            st = cmd_stage(ctx, [c], lambda k: obs, label="replaycmd")
+        elif c.get("kind") == "famgroup":
+            st = family_stage(ctx, [c], [])
+        else:
+            base = dict(strip(c), tag="replay")
+            obs, _, _ = evaluate(ctx, [base], [], "replay", report=False, corr=False)
+            st = loader_stage(ctx, [base], obs)
+        print("replay (%s): %s" % (c.get("kind") or "loader", json.dumps({k: v for k, v in st.items() if k not in ("note", "two_pass_differs_example")}, default=str)))
+        for line, path in [(l, l.split("replay=")[1].split()[0]) for l in ctx.violations[before:]]:
+            print("  FAILS:", json.dumps(json.load(open(path)).get("failures") or json.load(open(path)).get("got"), default=str)[:3000])
+        if len(ctx.violations) == before:
+            print("  commands / loader agree with the in-process run")
         return
     c = dict(c, tag=rp.get("tag", "replay"))
     obs, mism, stats = evaluate(ctx, [c], [], "replay", report=False)
